@@ -635,6 +635,9 @@ def run(ctx: Ctx):  # noqa: F811
     from .. import flatten as _fl
     from ..genlint import Index as _Idx
     for (shape, optional, null_adm), line in sorted(_fl.fold_python_option(_Idx(ctx.src, dirs=("generator",))).items(), key=repr):
+        if line.startswith("raises "):
+            # the fold did not get as far as the attribute line (a collaborator it has no stand-in for): undecided
+            raise AnalysisError(f"{P_PYUTILS}: _generate_properties {line} when folded for a {shape} property")
         want = bool(optional) or null_adm
         got = ": Optional[" in line and "default=None" in line
         req = ": Optional[" not in line and "default=None" not in line
